@@ -306,7 +306,7 @@ impl Engine for C01 {
     fn runs(&self, tier: Tier) -> u64 {
         match tier {
             Tier::Quick => 400_000,
-            Tier::Thorough => 12_000_000,
+            Tier::Thorough => 4_000_000,
         }
     }
     fn batch(&self) -> u64 {
